@@ -20,7 +20,7 @@ LABEL_POOLS = {
 def gen_circuit(rng, *, max_inputs=5, max_gates=14, types=None, max_arity=5, label_pool='plain',
                 shuffle_storage=True, allow_dead=True, n_outputs=None, p_repeat_operand=0.2,
                 p_output_is_input=0.15, p_repeat_output=0.15, min_inputs=0, blocks=False,
-                const_ops=True):
+                const_ops=True, p_twin=0.0):
     """A well-formed random circuit: dict(gates, inputs, outputs, users, blocks).
     Returns (json, info) where info counts the feature knobs that fired."""
     types = types or (SYM_NARY + CMP + LR + UNARY + CONST)
@@ -31,9 +31,23 @@ def gen_circuit(rng, *, max_inputs=5, max_gates=14, types=None, max_arity=5, lab
     rng.shuffle(labels)
     inputs = labels[:ni]
     gates = [[l, 'INPUT', []] for l in inputs]
-    info = {'repeat_operand': 0, 'nary3': 0, 'const_with_ops': 0, 'cmp_same': 0}
+    info = {'repeat_operand': 0, 'nary3': 0, 'const_with_ops': 0, 'cmp_same': 0, 'twin': 0}
     avail = list(inputs)
     for l in labels[ni:]:
+        if p_twin and rng.random() < p_twin:
+            # a twin: the type of an earlier gate on the same operands in another order
+            olds = [g for g in gates if len(g[2]) >= 2 and g[1] in types]
+            if olds:
+                g0 = rng.choice(olds)
+                ops = list(g0[2])
+                if rng.random() < 0.7:
+                    ops.reverse()
+                else:
+                    rng.shuffle(ops)
+                gates.append([l, g0[1], ops])
+                avail.append(l)
+                info['twin'] += 1
+                continue
         cands = list(types)
         if not avail:
             cands = [t for t in cands if t in CONST]
